@@ -12,6 +12,8 @@ From WG Require Import Flags.Props.
 From WG Require Import Visits.Bfs.
 From WG Require Import Visits.Dfs.
 From WG Require Import Algo.HyperBall.
+From WG Require Import Split.Model.
+From WG Require Import Split.ArcList.
 
 Extraction Language OCaml.
 
@@ -94,4 +96,32 @@ Extraction "model.ml"
   regs_sync
   ball_sizes
   hb_refused
+  scan
+  subg
+  slices
+  cuts_ok
+  seq_lab
+  ra_lab
+  left_lab
+  right_lab
+  unit_lab
+  permuted_lab
+  noloops_lab
+  par_lab
+  union_lab
+  lb_iter
+  split_iter
+  into_par_uniform
+  into_par_cutpoints
+  uniform_cuts
+  node_ranges
+  chainb
+  fair_chunks_new
+  fair_chunks_with
+  dcf_of
+  dcf_cuts
+  cumul
+  al_skip
+  al_collect
+  graph_of_arcs
 .
